@@ -62,6 +62,7 @@ func c07Case(t *T) {
 	tb := GenTable(r, 1+r.IntN(8), 35)
 	cfg := genCfg(r)
 	cfg.CacheCap = -1
+	cfg.Encoded = chance(r, 1, 3) // values containing '%' are escaped again on the way in
 	if cfg.FallbackMeth != nil && chance(r, 1, 2) {
 		tb.Routes = append(tb.Routes, &RouteSpec{Name: "fallback", Pat: &Pattern{Segs: []Seg{{Pre: "*"}}}, Methods: cfg.FallbackMeth})
 	}
